@@ -30,6 +30,7 @@ RULE = ('scenarios x exhaustive fault points.  Scenario = initial state of the t
         'the snapshot taken before the call.  An evaluation = one (scenario, k, exception) execution; non-trivial = the fault is injected '
         'after the point where the variable was modified; distinct = distinct (scenario hash, k, exception).')
 RULE += '  Also: parameter files with extra keywords spelled like environment variables, a scenario in which the real readspec runs on a synthetic survey tree.'
+RULE += ' Round 5: verbose=True.'
 ASSUMPTIONS = ['failure points are enumerated at collaborator-call granularity (not between arbitrary bytecodes); the restoring assignment itself is not a fault target',
                'collaborators are light stubs returning well-formed values (template stages take milliseconds); template_metadata, wavevector, djs_median, djs_maskinterp, '
                'get_juldate and the astropy FITS object construction run for real',
